@@ -299,6 +299,21 @@ def r2_no_carried_state(ctx, chk, rule="C10.2"):
             elif isinstance(n, ast.Call) and isinstance(n.func, ast.Attribute) and n.func.attr in MUT and (attr_path(n.func.value) or "").startswith("self."):
                 fld = attr_path(n.func.value)[5:]
             if fld in fresh_fields:
+                # ... and something on the solving path reads it back (a table that is only written - timings, counters for a report -
+                # carries nothing into a later solve)
+                def _is_read(x, fld=fld):
+                    if not (isinstance(x, ast.Attribute) and isinstance(x.ctx, ast.Load) and attr_path(x) == "self." + fld):
+                        return False
+                    par = getattr(x, "parent", None)
+                    if isinstance(par, ast.Subscript) and par.value is x and isinstance(par.ctx, (ast.Store, ast.Del)):
+                        return False
+                    if isinstance(par, ast.Attribute) and par.value is x and par.attr in MUT and isinstance(getattr(par, "parent", None), ast.Call) and par.parent.func is par \
+                            and isinstance(getattr(par.parent, "parent", None), ast.Expr):
+                        return False
+                    return True
+                if not any(_is_read(x) for h_ in scope if h_.cls is not None and h_.cls.name == game_cls and h_.name != "__init__" for x in walk_no_nested_defs(h_.node)):
+                    chk.note("%s fills self.%s while solving; nothing reachable from solve() reads it back" % (g_.short, fld))
+                    continue
                 problems += 1
                 chk.violation(rule, g_.where(n), "`%s` fills `self.%s`, a container the game object creates once in __init__, while solving: what one solve() put there is "
                               "what the next solve() of the same object finds (a result kept per mode, a table of visited states, ...)" % (norm_stmt(ctx.cfg(g_).stmt_of(n))[:80], fld),
